@@ -57,11 +57,19 @@ func fsStartSim(r *simcore.Run) {
 	src := dir
 	// a Kubernetes ConfigMap / Secret volume: <dir>/a.yaml -> ..data/a.yaml, ..data -> ..<version>/; an update creates a
 	// new version directory and renames a new ..data symlink over the old one
-	kubelet := singleFile && s.Draw(2, "kubelet-volume") == 1
+	kubelet := s.Draw(2, "kubelet-volume") == 1 // (with src naming the file a.yaml of the volume, or the volume's directory)
 	if kubelet {
 		write = func(n string, v int) {
 			vdir := filepath.Join(dir, fmt.Sprintf("..v%d", v))
 			os.Mkdir(vdir, 0o700)
+			// a volume update writes every key into the new version directory
+			if old, err := os.ReadDir(filepath.Join(dir, "..data")); err == nil {
+				for _, e := range old {
+					if b, err := os.ReadFile(filepath.Join(dir, "..data", e.Name())); err == nil {
+						os.WriteFile(filepath.Join(vdir, e.Name()), b, 0o600)
+					}
+				}
+			}
 			os.WriteFile(filepath.Join(vdir, n), []byte(provsim.RuleSetYAML(strings.TrimSuffix(n, ".yaml"), v, 1)), 0o600)
 			os.Symlink(filepath.Base(vdir), filepath.Join(dir, "..data_tmp"))
 			os.Rename(filepath.Join(dir, "..data_tmp"), filepath.Join(dir, "..data"))
@@ -112,6 +120,10 @@ func fsStartSim(r *simcore.Run) {
 				write(o.name, v)
 				opsLog = append(opsLog, fmt.Sprintf("write %s v%d", o.name, v))
 			} else {
+				if kubelet {
+					// the key is dropped from the ConfigMap: the new version directory lacks the file, the link is removed
+					os.Remove(filepath.Join(dir, "..data", o.name))
+				}
 				os.Remove(path(o.name))
 				delete(version, o.name)
 				opsLog = append(opsLog, "remove "+o.name)
@@ -120,6 +132,10 @@ func fsStartSim(r *simcore.Run) {
 	})
 	sch.Run()
 	if r.Failed() {
+		return
+	}
+	if startErr != nil && kubelet {
+		r.Fail("provider-does-not-start-on-a-valid-source", "file_system/kubelet-volume", "Start failed on a directory laid out like a ConfigMap volume (files are links through ..data, a link to the current version directory): %v", startErr)
 		return
 	}
 	if startErr != nil {
